@@ -64,6 +64,8 @@ func Script(t *tape.Tape, max int, conflicts bool, exotic ...bool) []Edit {
 		e.Path = p.Path
 		if len(exotic) > 0 && exotic[0] && t.Bool(1, 12) {
 			e.Path = DupPath
+		} else if len(exotic) > 0 && exotic[0] && t.Bool(1, 16) {
+			e.Path = "C" // the cgo pseudo-package as the package of an identifier the caller adds
 		}
 		if t.Bool(1, 10) {
 			// an identifier that carries the LOCAL package path (what ResolveLocalPath or hand-moved
